@@ -143,7 +143,12 @@ def run_history(hseed, nops, grish_all=False):
     def do_construct(t, fam, args, sibling):
         p = oc.construct(fam, args)
         fast, _ = oc.guarded(oc.fast_evaluator, fam, args, p)
-        instances.append({"fam": fam, "args": args, "obj": p, "digest": instance_digest(fam, p), "fast": fast, "buf": None})
+        dg = instance_digest(fam, p)
+        prev = by_member.get((fam, args))
+        if prev and instances[prev[0]]["digest0"] != dg:
+            v(t, "instance_tables", {"op": "construct", "family": fam, "args": list(args), "sibling": True},
+              what="a later object of the same member was constructed with different tables than the first one")
+        instances.append({"fam": fam, "args": args, "obj": p, "digest": dg, "digest0": dg, "fast": fast, "buf": None})
         by_member.setdefault((fam, args), []).append(len(instances) - 1)
         info["ops"]["sibling" if sibling else "construct"] += 1
         info["families"][fam] = info["families"].get(fam, 0) + 1
